@@ -216,7 +216,7 @@ func nativeValidate(prog *Program, mod, pkg string, results []*HarnessResult, ti
 	witnessOK := func(w *Witness, nres *nativeResult) bool {
 		return nres != nil && (nres.Status == "ok" || nres.Status == "race") && equalStrs(nres.Obs, w.Obs) && hasLabel(nres.Labels, w.Label)
 	}
-	for try := 0; try < 3; try++ {
+	for try := 0; try < 8; try++ {
 		var again []nativeCase
 		for _, r := range results {
 			for i, w := range r.Witnesses {
